@@ -295,12 +295,16 @@ func (ck *Check) Main(t *testing.T) {
 		st.account(c, rec)
 		st.sh.Replayed++
 		switch {
-		case k.Status == "open" && f != nil && f.Key == k.Key:
+		case f == nil:
+			// a fixed finding stays fixed; an open one no longer reproduces with this witness
+		case k.Status == "open" && f.Key == k.Key:
 			line := fmt.Sprintf("KNOWN-FINDING: property=%s %s", ck.ID, k.What)
 			fmt.Println(line)
 			st.sh.KnownShown = append(st.sh.KnownShown, line)
-		case f != nil && (k.Status != "open" || f.Key != k.Key):
-			if _, ok := open[f.Key]; ok && k.Status == "open" {
+		default:
+			if _, ok := open[f.Key]; ok {
+				// the witness of one finding also runs into another recorded, still open finding
+				st.sh.Known[f.Key]++
 				continue
 			}
 			failed = true
